@@ -58,13 +58,13 @@ func ruleR22(c *Ctx, prop string) {
 				roots = append(roots, oi.methods["Apply"], oi.methods["Init"])
 			}
 		}
-	case "C14", "C03":
+	case "C14", "C03", "C16":
 		for _, f := range c.libFns {
 			if fnPkgPath(f) == pkgOps && f.Parent() == nil && f.Object() != nil && f.Object().Exported() && strings.Contains(f.Name(), "roadcast") {
 				roots = append(roots, f)
 			}
 		}
-		if prop == "C03" {
+		if prop == "C03" || prop == "C16" {
 			for _, f := range c.libFns {
 				if fnPkgPath(f) == pkgOps && f.Parent() == nil && f.Name() == "ApplyBinaryOperation" {
 					roots = append(roots, f)
@@ -72,16 +72,31 @@ func ruleR22(c *Ctx, prop string) {
 			}
 		}
 	}
+	if len(roots) == 0 {
+		// operator properties: everything reachable from Init/Apply of the operators the property names
+		for _, nm := range opsOfProp(prop) {
+			if oi := c.opByName(nm); oi != nil {
+				roots = append(roots, oi.methods["Apply"], oi.methods["Init"])
+			}
+		}
+	}
 	reach := c.reachFrom(roots)
 	sites := c.shapeEqSites(func(f *ssa.Function) bool { return reach[f] })
 	perFn := map[string]int{}
+	nAudited := 0
 	for _, s := range sites {
 		fn := fname(s.Parent())
 		perFn[fn]++
-		c.violate("R22", fmt.Sprintf("R22:shape-eq:%s#%d", fn, perFn[fn]), c.pos(s.Pos()),
+		key := fmt.Sprintf("R22:shape-eq:%s#%d", fn, perFn[fn])
+		if why, ok := shapeEqAudited[fn]; ok && perFn[fn] == 1 {
+			nAudited++
+			c.discharge("R22", key, c.pos(s.Pos()), "audited use of the lax Shape.Eq: "+why)
+			continue
+		}
+		c.violate("R22", key, c.pos(s.Pos()),
 			"gorgonia's Shape.Eq decides a shape comparison here, but it treats a vector (n) as equal to a column (n,1) and a row (1,n): tensors of a different rank are taken to match")
 	}
-	if len(sites) == 0 {
+	if len(sites) == 0 && nAudited == 0 {
 		c.discharge("R22", "R22:shape-eq:none", "", fmt.Sprintf("no (tensor.Shape).Eq call among the %d functions this property's shape decisions run through", len(reach)))
 	}
 	c.counts["R22.functions"] = len(reach)
@@ -114,6 +129,26 @@ func loopBlocks(h *ssa.BasicBlock) map[*ssa.BasicBlock]bool {
 
 // ruleR23: loops that contain a guarded Repeat (the per-axis stretch loops) leave only through the
 // header (exhaustion) or into an error return.
+// loopEarlyExit: a block of the natural loop with header h that leaves the loop other than through the
+// header's own exit edge (exhausted) or into a block that returns a definitely non-nil error.
+// Returns the position of the offending branch, or "" when there is none.
+func (c *Ctx) loopEarlyExit(h *ssa.BasicBlock) (bool, string) {
+	lb := loopBlocks(h)
+	for b := range lb {
+		for _, s := range b.Succs {
+			if lb[s] || b == h || c.blockRejects(s, 0) {
+				continue
+			}
+			site := ""
+			if len(b.Instrs) > 0 {
+				site = c.pos(b.Instrs[len(b.Instrs)-1].Pos())
+			}
+			return true, site
+		}
+	}
+	return false, ""
+}
+
 func ruleR23(c *Ctx, prop string) {
 	n := 0
 	for _, f := range c.libFns {
@@ -189,6 +224,28 @@ func ruleR23(c *Ctx, prop string) {
 // R21 — attribute state is read-only after Init
 // ---------------------------------------------------------------------------------------------
 
+// propOpsExtra: the operators a property names, for the properties that propOps (gate scoping) leaves open.
+var propOpsExtra = map[string][]string{
+	"C07": {"Reshape", "Flatten", "Squeeze", "Unsqueeze", "Shape"},
+	"C08": {"Transpose", "Concat", "Slice", "Gather", "Expand"},
+	"C09": {"ArgMax", "ReduceMax", "ReduceMin", "Softmax", "LogSoftmax"},
+	"C11": {"Constant", "ConstantOfShape", "Cast"},
+	"C16": {"Gemm", "MatMul", "Conv", "GRU", "LSTM", "RNN", "Squeeze", "Gather"},
+}
+
+// opsOfProp: registry names of the operators the property is about (nil: not an operator property).
+func opsOfProp(prop string) []string {
+	if l, ok := propOpsExtra[prop]; ok {
+		return l
+	}
+	return propOps[prop]
+}
+
+// shapeEqAudited: (tensor.Shape).Eq call sites whose laxness was read and cannot produce a wrong value.
+var shapeEqAudited = map[string]string{
+	"ops.PairwiseAssign": "a rank mismatch that Eq lets through ends in an error from At(coord...) on the first element, never in a value",
+}
+
 func ruleR21(c *Ctx, prop string) {
 	names, scoped := propOps[prop]
 	inProp := func(n string) bool {
@@ -202,13 +259,7 @@ func ruleR21(c *Ctx, prop string) {
 		}
 		return false
 	}
-	extra := map[string][]string{
-		"C07": {"Reshape", "Flatten", "Squeeze", "Unsqueeze", "Shape"},
-		"C08": {"Transpose", "Concat", "Slice", "Gather", "Expand"},
-		"C09": {"ArgMax", "ReduceMax", "ReduceMin", "Softmax", "LogSoftmax"},
-		"C11": {"Constant", "ConstantOfShape", "Cast"},
-		"C16": {"Gemm", "MatMul", "Conv", "GRU", "LSTM", "RNN", "Squeeze", "Gather"},
-	}
+	extra := propOpsExtra
 	if l, ok := extra[prop]; ok {
 		inProp = func(n string) bool {
 			for _, x := range l {
